@@ -106,7 +106,7 @@ def unhex (s : String) : List Nat :=
 def parseRtOpts (s : String) : RtOpts :=
   let has (c : Char) := s.toList.contains c
   { strictDone := has 's', dynamic := has 'd', onDemand := has 'o', deleteFrees := has 'f',
-    u8 := has 'u', unsafeIdx := has 'x', indirect := has 'i', zeroLen := has 'z' }
+    u8 := has 'u', unsafeIdx := has 'x', indirect := has 'i', zeroLen := has 'z', packed := has 'p' }
 
 def rtOp (c : RtCtx) (σ0 : CState) (σ : CState) (op : String) : CState :=
   match splitOn op ':' with
@@ -161,10 +161,10 @@ def cmdRt (args : List String) : String :=
         scalars := Array.ofFn (n := M.outs.size) fun i =>
           match (M.outs.getD i default).ty with
           | .bool => 170
-          | t => (t.cty c.ro.u8).wrap pat,
+          | t => (t.cty c.ro.u8 c.ro.packed).wrap pat,
         strs := Array.ofFn (n := M.outs.size) fun i =>
           let t := (M.outs.getD i default).ty
-          { bytes := Array.replicate t.size (some 170), counter := 0, alloc := .inStruct } }
+          { bytes := Array.replicate t.size none, counter := 0, alloc := .inStruct } }
       let σ := (splitOn ops ';').foldl (fun σ op => if op = "" then σ else rtOp c σ0 σ op) σ0
       " ## ".intercalate σ.log.toList
     | .error e => s!"error parse {e}"
